@@ -318,6 +318,85 @@ def check_text(acc, flaw, family, text, flname, files, neutral_cache):
                 return
 
 
+# ---- the failed start-up itself: the reloader turns the child's stderr into the failsafe application ----------------
+STARTUPS = [
+    ('sysexit-message', 'import sys\nsys.exit("could not load settings: DB_URL is not set")\n', ['could not load settings: DB_URL is not set']),
+    ('sysexit-markup', 'import sys\nsys.exit("refusing to start <b>twice</b> & {again}")\n', ['refusing to start <b>twice</b> & {again}']),
+    ('traceback', 'def f():\n    raise ValueError("boom <x>")\nf()\n', ['ValueError: boom <x>', 'Traceback (most recent call last):']),
+    ('warning-then-traceback', 'import sys\nsys.stderr.write("warning: deprecated thing\\n")\nraise KeyError("k")\n',
+     ['warning: deprecated thing', "KeyError: 'k'"]),
+    ('syntax-error', 'def (:\n', ['SyntaxError']),
+    ('not-utf8', 'import sys\nsys.stderr.buffer.write(b"caf\\xe9 is closed\\n")\nsys.stderr.flush()\nsys.exit(1)\n', [' is closed']),
+    ('blank-lines', 'import sys\nsys.stderr.write("\\n\\n  \\n")\nsys.exit(1)\n', []),
+    ('no-newline', 'import sys\nsys.stderr.write("died without a newline")\nsys.stderr.flush()\nimport os\nos._exit(1)\n', ['died without a newline']),
+    ('very-long', 'import sys\nfor i in range(3000):\n    sys.stderr.write("line %d of the log\\n" % i)\nsys.exit("last words")\n', ['last words']),
+    ('exception-group', 'raise ExceptionGroup("several", [ValueError("a<1>"), TypeError("b")])\n', ['several']),
+]
+
+
+class _Done(BaseException):
+    pass
+
+
+def check_reloader(acc, only=None):
+    """clastic.server.restart_with_reloader run in-process for start-up scripts that fail in every way a start-up can
+    put text on stderr; its error_func builds the failsafe application like run_simple's serve_error_app does."""
+    import io
+    import shutil
+    import tempfile
+    from html import escape
+    from clastic import flaw, server
+    tmp = tempfile.mkdtemp(prefix='c20-startup-')
+    old_argv, old_err, old_out = sys.argv, sys.stderr, sys.stdout
+    try:
+        for name, body, expect in STARTUPS:
+            if only and name != only:
+                continue
+            acc.evaluated += 1
+            acc.transitions += 1
+            acc.validated += 1
+            acc.add('nontrivial')
+            case = {'startup': name}
+            script = os.path.join(tmp, name.replace('-', '_') + '.py')
+            with open(script, 'w') as f:
+                f.write(body)
+            seen = {}
+
+            def error_func(tb_str, monitored):
+                seen['text'] = tb_str
+                seen['app'] = flaw.create_app(tb_str, monitored)
+                raise _Done()
+            sys.argv = [script]
+            sys.stderr, sys.stdout = io.StringIO(), io.StringIO()
+            died = None
+            try:
+                try:
+                    ret = server.restart_with_reloader(error_func=error_func)
+                    died = 'returned %r without building the failsafe application' % (ret,)
+                except _Done:
+                    pass
+                except Exception as e:
+                    died = 'died with %r' % (e,)
+            finally:
+                sys.stderr, sys.stdout = old_err, old_out
+            acc.outcome('startup|%s' % name)
+            if died:
+                acc.violation('C20:reloader:%s' % name, 'start-up script %r (exit status 1, text on stderr): the reloader %s' % (body, died), case)
+                continue
+            for path in ('/', '/x/y'):
+                res = wsgi.call(seen['app'], path, 'GET')
+                acc.transitions += 1
+                page = (res.body or b'').decode('utf-8', 'replace')
+                missing = [t for t in expect if escape(t, True) not in page and escape(t, True).replace('&#x27;', '&#39;') not in page]
+                if res.raised is not None or res.code != 200 or missing:
+                    acc.violation('C20:reloader-page:%s' % name, 'failsafe page for start-up %r answered %s %r, missing %r'
+                                  % (name, res.status, res.raised, missing), case)
+                    break
+    finally:
+        sys.argv = old_argv
+        shutil.rmtree(tmp, ignore_errors=True)
+
+
 def work(tier):
     fls = file_lists()
     items = []
@@ -340,6 +419,8 @@ def shard(tier, i, n, seed):
     from clastic import flaw
     acc = common.Acc()
     cache = {}
+    if i == 1 % n:
+        check_reloader(acc)
     for k, (family, text, (flname, files)) in enumerate(work(tier)):
         if k % n != i:
             continue
@@ -359,7 +440,7 @@ def finish(tier, merged, results):
             if not any(k.startswith(need) for k in oc):
                 raise common.InternalError('vacuous: family %s missing' % need)
     return {'bounds': {'texts': len(work(tier)), 'short_string_length': 3 if tier == 'quick' else 4, 'alphabet': ALPHABET,
-                       'requests_per_text': len(PATHS), 'file_lists': [n for n, _ in file_lists()]},
+                       'requests_per_text': len(PATHS), 'startup_scripts': [n_ for n_, _, _ in STARTUPS], 'file_lists': [n for n, _ in file_lists()]},
             'distinct_nontrivial': merged['extra'].get('nontrivial', 0)}
 
 
@@ -367,6 +448,9 @@ def replay(case):
     common.setup_repo()
     from clastic import flaw
     acc = common.Acc()
+    if 'startup' in case:
+        check_reloader(acc, only=case['startup'])
+        return (False, acc.violations[0]['desc'][:2000]) if acc.violations else (True, 'ok')
     text = case['text']
     if case.get('text_is_bytes') or (isinstance(text, str) and text.startswith("b'")):
         import ast
